@@ -1,7 +1,7 @@
 (* Calibration sketch (round 0): C04's unbind clause on the Conn model — F15 refuted as the code is, the repaired statement proved. *)
 From RecordUpdate Require Import RecordUpdate.
 From Coq Require Import List ZArith Lia Bool Arith.
-From L3 Require Import Msgid Conn ConnProofs ConnAccount.
+From L3 Require Import Msgid Conn ConnProofs ConnAccount ConnLin2.
 Import ListNotations.
 Open Scope Z_scope.
 
@@ -28,3 +28,11 @@ Lemma c04_F15_repaired :
   is_running s = false /\ option_map o_status (getop s 0%nat) = Some (CErr EResultRecv) /\ option_map o_status (getop s 1%nat) = Some (COk None).
 Proof. vm_compute. repeat split. Qed.
 Print Assumptions c04_unbind_ends_driver.
+
+(* each listed cause (EOF, I/O error, undecodable frame, write error, last handle dropped: the event [DrvEnd how]) ends the driver,
+   whatever the state *)
+Theorem c04_end_causes s how : how <> Running -> is_running s = true -> is_running (step s (DrvEnd how)) = false.
+Proof. intros Hh Hr. unfold step. rewrite Hr. unfold end_driver, is_running. cbn [drv set]. destruct how; [congruence|reflexivity..]. Qed.
+(* ... and once ended it stays ended: no event restarts it *)
+Theorem c04_ended_stays_ended s e : is_running s = false -> is_running (step s e) = false.
+Proof. intros H. unfold is_running. rewrite (ConnLin2.drv_step_ended s e H). exact H. Qed.
